@@ -10,11 +10,17 @@ func fillNodeNameToMetaVictims(args *schedulerapi.ExtenderPreemptionArgs) {
 	if len(args.NodeNameToVictims) != 0 && len(args.NodeNameToMetaVictims) == 0 {
 		args.NodeNameToMetaVictims = map[string]*schedulerapi.MetaVictims{}
 		for node, victim := range args.NodeNameToVictims {
+			if victim == nil {
+				continue
+			}
 			metaVictim := &schedulerapi.MetaVictims{
 				Pods:             []*schedulerapi.MetaPod{},
 				NumPDBViolations: victim.NumPDBViolations,
 			}
 			for _, pod := range victim.Pods {
+				if pod == nil {
+					continue
+				}
 				metaPod := &schedulerapi.MetaPod{
 					UID: string(pod.UID),
 				}
